@@ -244,7 +244,10 @@ def ops : List (String × Op) := [
             let v := okHap ref members haps (some t)
             pure (showVerdict (v = .fail && hapFailureIsShaped ref members haps t) v)
           | none => pure "fail unreadable-answer"
-        | _ => do let _ ← pRest; pure (showVerdict false (okHap ref members haps none))
+        | _ => do
+          let _ ← pRest
+          let v := okHap ref members haps none
+          pure (showVerdict (v = .fail && hapRefusalIsShaped members haps) v)
       | _, _ => do let _ ← pRest; pure "n/a"),
   ("vcf", do
       let recs ← pList pVcfRec; pArrow
